@@ -22,7 +22,7 @@ type c05Case struct {
 	Decs    [6]int `json:"decs"`    // Start1, End1, ... (0 none, 1 line comment, 2 "\n", 3 block comment)
 }
 
-var c05Kinds = []string{"stmt", "decl", "spec", "field", "method", "clause", "arg", "elt", "rawarg", "rawelt", "rawstmt", "pathelt", "patharg", "casebody", "commbody", "blocks"}
+var c05Kinds = []string{"stmt", "decl", "spec", "field", "method", "clause", "arg", "elt", "rawarg", "rawelt", "rawstmt", "pathelt", "patharg", "casebody", "commbody", "blocks", "importspec"}
 
 func c05OwnLine(kind string) bool {
 	return kind != "arg" && kind != "elt" && !strings.HasPrefix(kind, "raw")
@@ -74,6 +74,16 @@ func c05Build(kind string) (file *dst.File, elems []dst.Node, open string, texts
 		}
 		file.Decls = []dst.Decl{fn(list...)}
 		return file, elems, "package p\n\nfunc f() {", texts, ";", "}\n"
+	case "importspec":
+		g := &dst.GenDecl{Tok: token.IMPORT, Lparen: true, Rparen: true}
+		for _, n := range names {
+			s := &dst.ImportSpec{Path: &dst.BasicLit{Kind: token.STRING, Value: "\"" + n + "\""}}
+			g.Specs = append(g.Specs, s)
+			elems = append(elems, s)
+			texts = append(texts, "\""+n+"\"")
+		}
+		file.Decls = []dst.Decl{g}
+		return file, elems, "package p\n\nimport (", texts, ";", ")\n"
 	case "decl":
 		for _, n := range names {
 			d := &dst.GenDecl{Tok: token.VAR, Specs: []dst.Spec{&dst.ValueSpec{Names: []*dst.Ident{id(n)}, Type: id("int")}}}
@@ -255,7 +265,7 @@ func init() {
 	core.Register(&core.Prop{
 		ID:    "C05",
 		Level: "model_checking",
-		Rule: "16 list kinds (statements, statement lists of case and comm clauses and of function bodies whose elements include bare block statements, declarations, specs, struct fields, interface methods, case clauses, call arguments, composite elements, and arguments / elements / statements ending in multi-line raw strings that contain empty lines, and arguments / elements that are package-qualified identifiers printed with import management) x all 3^6 None/NewLine/EmptyLine assignments to Before/After of 3 elements " +
+		Rule: "17 list kinds (import specs, statements, statement lists of case and comm clauses and of function bodies whose elements include bare block statements, declarations, specs, struct fields, interface methods, case clauses, call arguments, composite elements, and arguments / elements / statements ending in multi-line raw strings that contain empty lines, and arguments / elements that are package-qualified identifiers printed with import management) x all 3^6 None/NewLine/EmptyLine assignments to Before/After of 3 elements " +
 			"x every assignment of {none, line comment, newline, block comment} to the 6 Start/End points with <=2 (quick) / <=3 (thorough) non-empty, on hand-built trees; " +
 			"oracle: print == gofmt(text rendered by the non-additive line-break ledger) and, for own-line kinds without decorations, one blank line between neighbours iff After or Before is EmptyLine; " +
 			"state = (kind, spacing vector, decoration vector); non-trivial = any spacing/decoration set",
